@@ -5,7 +5,16 @@ altered copies of it are delivered to the same live receiver first; each must
 leave no trace (no event, no handshake progress, no stream data, not closed, no
 exception, same expected packet numbers / ack queues); then the genuine datagram
 is delivered and the run continues.  At the end the events of both endpoints
-must equal those of an unaltered control run of the same scenario."""
+must equal those of an unaltered control run of the same scenario.
+
+That amortised scheme meets a truly fresh receiver only with its very first
+alteration, so state that the FIRST packet latches (Initial keys, version,
+connection IDs) is covered separately by `test_first_datagrams`: fresh
+endpoints for every single alteration of the first datagram each endpoint
+receives (and of a Retry), altered first, then genuine, then the rest of the
+handshake as in the control run; and by `first_flight_keys_problem`, the direct
+tie of AQ.RecvGate.serverInit (every decrypt attempt of a first-flight server
+uses keys derived from that packet's own Destination Connection ID)."""
 import random
 
 from harness import sim as simmod
@@ -195,8 +204,8 @@ class Scenario:
     """one deterministic schedule: handshake (optionally behind a Retry), data
     both ways, key update, more data"""
 
-    def __init__(self, suite, version, retry, seed):
-        self.suite, self.version, self.retry, self.seed = suite, version, retry, seed
+    def __init__(self, suite, version, retry, seed, token=b"retry-token-" + bytes(range(20))):
+        self.suite, self.version, self.retry, self.seed, self.token = suite, version, retry, seed, token
 
     def name(self):
         return f"suite={self.suite} version={self.version:#x} retry={int(self.retry)} seed={self.seed}"
@@ -218,7 +227,7 @@ class Scenario:
     def fin(self, ep, sid):
         return any(type(ev).__name__ == "StreamDataReceived" and ev.stream_id == sid and ev.end_stream for _, ev in ep.events)
 
-    def run(self, sim, retry_hook=None):
+    def run(self, sim, handshake_only=False):
         c, s = sim.client, sim.server
         if self.retry:
             from aioquic.quic.connection import QuicConnection
@@ -228,7 +237,7 @@ class Scenario:
             odcid = c.conn.original_destination_connection_id
             new_scid = bytes(sim.r.getrandbits(8) for _ in range(8))
             retry = encode_quic_retry(version=self.version, source_cid=new_scid, destination_cid=c.conn.host_cid,
-                                      original_destination_cid=odcid, retry_token=b"retry-token-" + bytes(range(20)))
+                                      original_destination_cid=odcid, retry_token=self.token)
             s.conn = QuicConnection(configuration=s.conn.configuration, original_destination_connection_id=odcid,
                                     retry_source_connection_id=new_scid)
             d = {"id": -2, "src": s, "dst": c, "data": retry, "to": c.addr, "from": s.addr, "t": sim.now}
@@ -236,8 +245,8 @@ class Scenario:
             ok = sim.fair_phase(max_steps=200, done=lambda: c.conn._handshake_confirmed and s.conn._handshake_confirmed and not sim.pending)
         else:
             ok = sim.handshake()
-        if not ok:
-            return False
+        if not ok or handshake_only:
+            return ok
         sid = c.conn.get_next_available_stream_id()
         sim.api(c, "send_stream_data", sid, bytes(3000), False)
         sim.transmit(c)
@@ -255,7 +264,7 @@ class Scenario:
         return self.fin(c, sid) and self.fin(s, sid)
 
 
-def run_scenario(sc, long_types, alter=None):
+def run_scenario(sc, long_types, alter=None, handshake_only=False):
     """alter(sim, index, d) is called before datagram number `index` is
     delivered.  Returns (completed, client event sigs, server event sigs, n datagrams)."""
     class PhaseMonitor:
@@ -277,12 +286,22 @@ def run_scenario(sc, long_types, alter=None):
             alter(sim, i, d)
         orig(d, from_addr)
     sim.deliver = deliver
+    # observation: every decrypt ATTEMPT (the sim's own tap only reports successes)
+    from aioquic.quic import crypto as qcrypto
+    sim.decrypt_attempts = []
+    inner = qcrypto.CryptoPair.decrypt_packet
+
+    def attempt(pair, packet, encrypted_offset, expected_packet_number):
+        sim.decrypt_attempts.append((pair, bytes(packet)))
+        return inner(pair, packet, encrypted_offset, expected_packet_number)
+    qcrypto.CryptoPair.decrypt_packet = attempt
     try:
-        done = sc.run(sim)
+        done = sc.run(sim, handshake_only)
         res = (done, merged([event_sig(e) for _, e in sim.client.events]),
                merged([event_sig(e) for _, e in sim.server.events]), counter[0],
                [(n, repr(e)) for ep in sim.endpoints for n, e in ep.raised], sorted(mon.phases))
     finally:
+        qcrypto.CryptoPair.decrypt_packet = inner
         sim.close_taps()
     return res
 
@@ -311,6 +330,36 @@ def vn_conversion(data, pkts, pos, mask, pkt_index):
     v = bytearray(data[p["start"] + 1:p["start"] + 5])
     v[pos - p["start"] - 1] ^= mask
     return not any(v)
+
+
+_rfc = {}
+
+
+def rfc():
+    if "x" not in _rfc:
+        from harness import rfc_prot
+        _rfc["x"] = rfc_prot.Rfc(rfc_prot.Tables())
+    return _rfc["x"]
+
+
+def first_flight_keys_problem(ep, before, attempts):
+    """tie of AQ.RecvGate.serverInit: a server that has not accepted any packet
+    derives the Initial keys it tries from the Destination Connection ID of THAT
+    packet (RFC 9001 §5.2), whatever it has seen before"""
+    if ep.is_client or before["state"] != "FIRSTFLIGHT":
+        return None
+    for pair, packet in attempts:
+        if not packet or not packet[0] & 0x80 or len(packet) < 7:
+            continue
+        version = next((v for v, p in ep.conn._cryptos_initial.items() if p is pair), None)
+        if version is None:
+            continue
+        dcid = packet[6:6 + packet[5]]
+        want = rfc().initial_secrets(int(version), dcid)[0]
+        if pair.recv.secret != want:
+            return (f"a server in its first flight tried Initial keys that are not derived from the packet's own "
+                    f"Destination Connection ID {dcid.hex()} (keys of an earlier Initial were kept)")
+    return None
 
 
 def test_scenario(ctx, sc, long_types, thorough, r, stats):
@@ -356,8 +405,17 @@ def test_scenario(ctx, sc, long_types, thorough, r, stats):
                 p = pkts[pi]
                 alt = bytes(alt[p["start"]:p["end"]]) + bytes(len(data) - (p["end"] - p["start"]))
                 before = snapshot(ep)
+                n_att = len(sim.decrypt_attempts)
                 sim.api(ep, "receive_datagram", bytes(alt), d["from"], now=sim.now)
                 after = snapshot(ep)
+                kp = first_flight_keys_problem(ep, before, sim.decrypt_attempts[n_att:])
+                if kp:
+                    state["violation"] = {
+                        "what": f"datagram #{i} to {ep.name} with byte {pos} ^= {mask:#04x}: {kp}",
+                        "replay": {"scenario": sc.name(), "datagram_index": i, "receiver": ep.name, "byte": pos,
+                                   "xor": mask, "genuine_datagram": data.hex()},
+                        "signature": {"oracle": "bitflip", "class": "first-flight-keys"}}
+                    return
                 stats[klass] = stats.get(klass, 0) + 1
                 kind = pkts[pi]["kind"] if pi is not None else "none"
                 ctx.count((sc.name(), i, pos, mask), klass != "padding")
@@ -392,6 +450,95 @@ def test_scenario(ctx, sc, long_types, thorough, r, stats):
         return
 
 
+def header_positions(data, pkts):
+    """every byte of every header in the datagram: first byte, version, DCID
+    length + DCID, SCID length + SCID, token length + token, length field, the
+    four possible packet-number bytes; for a Retry every byte of the packet"""
+    out = []
+    for p in pkts:
+        end = p["end"] if p["pn"] is None else min(p["end"], p["pn"] + 4)
+        out += list(range(p["start"], end))
+    return out
+
+
+def test_first_datagrams(ctx, sc, long_types, thorough, stats, receivers=("server", "client")):
+    """FRESH receiver per alteration.  For the first datagram each endpoint ever
+    receives (client Initial at a fresh server, server Initial+Handshake or Retry
+    at the client, first Initial after a Retry at the server): ONE altered packet
+    is delivered first, it must leave no trace, then the genuine datagram and the
+    rest of the handshake must go exactly as in the control run.  Catches state
+    that only the very first packet can latch (keys, version, connection IDs)."""
+    datagrams = []
+    control = run_scenario(sc, long_types, lambda sim, i, d: datagrams.append((i, d["dst"].name, d["data"])), True)
+    if not control[0] or control[4]:
+        ctx.broken.append({"kind": "broken-correspondence", "correspondence": "bitflip-control",
+                           "error": f"handshake-only control run of {sc.name()} did not complete: {control[4][:2]}"})
+        return
+    targets, seen = [], set()
+    for i, dst, data in datagrams:
+        if dst not in seen:
+            seen.add(dst)
+            if dst in receivers:
+                targets.append((i, data))
+    masks = (0x01, 0x80) if not thorough else (0x01, 0x02, 0x04, 0x08, 0x10, 0x20, 0x40, 0x80, 0xFF)
+    for ti, tdata in targets:
+        pkts, end = split_packets(tdata, long_types)
+        for pos in header_positions(tdata, pkts):
+            klass, pi = classify(pkts, end, pos)
+            for mask in masks:
+                found = {}
+
+                def alter(sim, i, d, pos=pos, mask=mask, pi=pi):
+                    if i != ti:
+                        return
+                    ep, data = d["dst"], d["data"]
+                    pk, _ = split_packets(data, long_types)
+                    if len(data) != len(tdata) or pi >= len(pk):
+                        found["skip"] = True       # the run is not the control run's twin (should not happen)
+                        return
+                    p = pk[pi]
+                    alt = bytearray(data)
+                    alt[pos] ^= mask
+                    alt = bytes(alt[p["start"]:p["end"]]) + bytes(len(data) - (p["end"] - p["start"]))
+                    before = snapshot(ep)
+                    n_att = len(sim.decrypt_attempts)
+                    sim.api(ep, "receive_datagram", alt, d["from"], now=sim.now)
+                    after = snapshot(ep)
+                    found["kind"] = p["kind"]
+                    found["receiver"] = ep.name
+                    found["genuine"] = data.hex()
+                    if after != before:
+                        found["changed"] = sorted(k for k in before if before[k] != after[k])
+                        found["vn"] = vn_conversion(data, pk, pos, mask, pi)
+                    found["keys"] = first_flight_keys_problem(ep, before, sim.decrypt_attempts[n_att:])
+                res = run_scenario(sc, long_types, alter, True)
+                stats["fresh-" + klass] = stats.get("fresh-" + klass, 0) + 1
+                ctx.count(("fresh", sc.name(), ti, pos, mask), True)
+                replay = {"scenario": sc.name() + " (handshake only, fresh endpoints)", "datagram_index": ti,
+                          "receiver": found.get("receiver"), "packet": found.get("kind"), "field": klass, "byte": pos,
+                          "xor": mask, "genuine_datagram": found.get("genuine"),
+                          "procedure": "deliver the altered packet (alone, zero-padded) first, then the genuine datagram"}
+                if found.get("skip") or "receiver" not in found:
+                    ctx.broken.append({"kind": "broken-correspondence", "correspondence": "bitflip-fresh",
+                                       "error": f"{sc.name()}: datagram #{ti} differs between runs"})
+                    return
+                if "changed" in found:
+                    ctx.witness(f"first datagram to a fresh {found['receiver']} ({found['kind']} packet, field {klass}) with byte "
+                                f"{pos} ^= {mask:#04x} was not discarded silently: changed {found['changed']}", replay,
+                                {"oracle": "bitflip", "class": "version-to-vn" if found["vn"] else klass,
+                                 "changed": ",".join(found["changed"][:3])})
+                elif found.get("keys"):
+                    ctx.witness(found["keys"], replay, {"oracle": "bitflip", "class": "first-flight-keys"})
+                elif not res[0] or res[1] != control[1] or res[2] != control[2] or res[4]:
+                    ctx.witness(f"the genuine {found['kind']} packet is not accepted after an altered copy (field {klass}, byte {pos} "
+                                f"^= {mask:#04x}) was dropped by a fresh {found['receiver']}: handshake "
+                                f"{'completed with different events' if res[0] else 'never completes'}",
+                                dict(replay, completed=res[0], client_events=res[1], server_events=res[2],
+                                     control_client=control[1], control_server=control[2], raised=res[4]),
+                                {"oracle": "bitflip-genuine-after", "class": "first-datagram", "field": klass,
+                                 "receiver": found["receiver"]})
+
+
 def section_bitflip(ctx, tier, r):
     thorough = tier == "thorough"
     lt = long_types_from_tables()
@@ -403,6 +550,16 @@ def section_bitflip(ctx, tier, r):
             scenarios.append(Scenario(suite, v, False, 11 + suite))
     scenarios.append(Scenario(4865, v1, True, 5))
     scenarios.append(Scenario(4867, v2, True, 6))
+    # one alteration per fresh pair of endpoints: first datagram at each endpoint / Retry
+    # (quick: both first datagrams for v1, the client Initial for v2, the Retry packet; thorough: all of them,
+    # every bit of every header byte)
+    both = ("server", "client")
+    fresh = [(Scenario(4865, v1, False, 21), both), (Scenario(4867, v2, False, 22), both if thorough else ("server",)),
+             (Scenario(4865, v1, True, 23, token=b"tok-" + bytes(range(4))), both if thorough else ("client",))]
+    if thorough:
+        fresh.append((Scenario(4866, v2, True, 24), both))
+    for sc, receivers in fresh:
+        test_first_datagrams(ctx, sc, lt, thorough, stats, receivers)
     for sc in scenarios:
         test_scenario(ctx, sc, lt, thorough, r, stats)
     stats["key_phases_seen"] = sorted(stats.get("key_phases_seen", []))
